@@ -7,6 +7,7 @@ import (
 
 	"pdverif/internal/cli"
 	_ "pdverif/internal/gc"
+	_ "pdverif/internal/bootstraph"
 	_ "pdverif/internal/clusterh"
 	_ "pdverif/internal/idalloc"
 	_ "pdverif/internal/placementh"
